@@ -11,10 +11,10 @@ import (
 // C14 — a channel view addresses exactly its channel of the parent buffer.
 
 type c14Case struct {
-	Type        string `json:"type"`
-	C, P, S, L  int    // root of P frames (full length); parent = root.Slice(S, S+L) (or the root itself when Whole)
-	Whole       bool
-	Chan        int
+	Type       string `json:"type"`
+	C, P, S, L int    // root of P frames (full length); parent = root.Slice(S, S+L) (or the root itself when Whole)
+	Whole      bool
+	Chan       int
 }
 
 func c14Run(cs c14Case) (fs []F) {
